@@ -792,13 +792,23 @@ def r2_8(ctx: Ctx) -> RuleResult:
         return None
 
     produced: List[ast.expr] = []
+    nothing: Set[int] = set()  # produced expressions whose value on this path is UNDEFINED
+    NOTHING = "$UNDEFINED"
 
     def on_call(c: ast.Call, args, env):  # type: ignore[no-untyped-def]
         if callee_name(c) == "append" and len(c.args) == 1:
             produced.append(c.args[0])
+            if args and args[0] == NOTHING:
+                nothing.add(id(c.args[0]))
         return None
 
-    ex = Explorer(ctx.folder, fn, oracle, on_call, enter_loops=True)
+    def value_oracle(e: ast.expr, env: dict):  # type: ignore[no-untyped-def, type-arg]
+        # the value of the name UNDEFINED is followed through locals (`unpacked = UNDEFINED ... append(unpacked)`)
+        if isinstance(e, ast.Name) and e.id == "UNDEFINED" and "UNDEFINED" not in env:
+            return NOTHING
+        return None
+
+    ex = Explorer(ctx.folder, fn, oracle, on_call, value_oracle=value_oracle, enter_loops=True)
     outs = ex.run({})
     # values produced by a returned comprehension / list display
     def leaves(e: ast.expr, env: dict) -> List[ast.expr]:  # type: ignore[type-arg]
@@ -820,7 +830,7 @@ def r2_8(ctx: Ctx) -> RuleResult:
     if not produced:
         raise AnalysisError("R2.8: _unpack_node_lists produces no argument values on the typed path")
     for e in produced:
-        if path_of(e) == "UNDEFINED":
+        if path_of(e) == "UNDEFINED" or id(e) in nothing:
             rr.ok(fn.loc(e), "empty node list for a value parameter -> UNDEFINED (Nothing)")
         else:
             rr.bad(fn, e, f"for a typed function, an empty node list given to a value parameter is passed as `{short(e)}` "
